@@ -857,6 +857,11 @@ func (interp *Interpreter) cfg(root *node, sc *scope, importPath, pkgName string
 						if !shadow {
 							// Do not overload existing symbols (defined in GTA) in global scope.
 							sym, _, _ = sc.lookup(dest.ident)
+							if sym != nil && sym.node != n && !sc.isRedeclared(dest) && sc.anc != interp.universe {
+								// The symbol is defined by another statement: n is in a nested
+								// block of a global statement, where it defines a new variable.
+								sym = nil
+							}
 						}
 					}
 					if sym == nil {
